@@ -91,6 +91,13 @@ def caps_for(date, params, res, df):
     if all(x in res for x in parts) and "sozialv_beitr_arbeitnehmer_m" in res:
         tot = sum(res[x].to_numpy().astype(float) for x in parts)
         out.append(("total employee contributions <= sum of the four branches", "sozialv_beitr_arbeitnehmer_m", 1.0, tot, 0.01))
+    # ---- shares and per-child maxima the parameters state
+    mb = params.get("arbeitsl_geld_2", {}).get("mehrbedarf_anteil", {})
+    if isinstance(mb, dict) and "max" in mb:
+        out.append(("single-parent additional need share <= statutory maximum share", "_arbeitsl_geld_2_alleinerz_mehrbedarf_m", 1.0, np.full(n, float(mb["max"])), 1e-9))
+    kzmax = params.get("kinderzuschl", {}).get("maximum")
+    if isinstance(kzmax, (int, float)) and "anz_personen_bg" in res:
+        out.append(("Kinderzuschlag <= maximum per child x persons of the needs unit", "_kinderzuschl_vor_vermög_check_m_bg", 1.0, float(kzmax) * res["anz_personen_bg"].to_numpy().astype(float), 0.01))
     # ---- transfers against the assessed need / entitlement
     out.append(("ALG II before priority <= assessed need", "arbeitsl_geld_2_vor_vorrang_m_bg", 1.0, "arbeitsl_geld_2_regelbedarf_m_bg", 1e-6))
     if "arbeitsl_geld_2_regelbedarf_m_bg" in res and "_grunds_im_alter_mehrbedarf_schwerbeh_g_m_eg" in res:
@@ -140,13 +147,19 @@ def corner_population(date, rnd, tid):
     if mode == "many_children":
         a = popgen.rec(partner=2, spouse=2, gv=True)
         b = popgen.rec(partner=1, spouse=1, gv=True)
-        s = [a, b] + [popgen.rec(age=24, e1=1, e2=2) for _ in range(rnd.choice([6, 10]))]
+        nk = rnd.choice([6, 10])
+        if tid % 2 == 0:
+            s = [a, b] + [popgen.rec(age=24, e1=1, e2=2) for _ in range(nk)]
+        else:   # a single parent with many children
+            s = [popgen.rec()] + [popgen.rec(age=24, e1=1) for _ in range(nk)]
         P = popgen.compose([s], date, rnd)
-        for k, p in enumerate(P[2:]):
+        for k, p in enumerate(P[(2 if tid % 2 == 0 else 1):]):
             p["alter"] = k % 18
             p["geburtsjahr"] = gs.year_of(date) - p["alter"]
             p["kind"] = True
             p["bruttolohn_m"] = 0.0
+        if tid % 2 == 1:
+            P[0]["alleinerz"] = True
     return gs.build_population(P, date), P, mode
 
 
